@@ -151,6 +151,11 @@ def run_property(pid, tier):
     # ---- guards: T0 axiom audit against CPython (bounded test of the model), cvc5 agreement (thorough) -------------------
     from . import audit
     aud = audit.run(60 if tier != "thorough" else 1500, seed)
+    from . import crosscheck, spec_sym
+    try:
+        xc = crosscheck.run(repo, reg, spec_sym)
+    except BaseException as e:
+        xc = {"programs": 0, "values_compared": 0, "mismatches": [{"error": str(e)}]}
     cvc5_stats = {"unsat": 0, "unknown": 0, "sat": 0}
     for q, o in rel:
         c5 = (o.get("extra") or {}).get("cvc5")
@@ -159,6 +164,13 @@ def run_property(pid, tier):
     engine_faults = []
     if not aud.get("ok"):
         engine_faults.append("T0 axiom audit failed: %s" % (aud.get("failures") or aud.get("error")))
+    xc_note = None
+    if xc["mismatches"]:
+        # the executor disagrees with CPython on a concrete program, or cannot run it.  On an edited tree this is usually the
+        # edit leaving the supported subset (reported, not fatal: the verdict of the proof obligations stands on its own)
+        xc_note = "engine cross-check: %d mismatches, first: %s" % (len(xc["mismatches"]), str(xc["mismatches"][0])[:300])
+        if os.path.realpath(repo.root) == "/repo" and not any("UNSUPPORTED" in str(m) for m in xc["mismatches"]):
+            engine_faults.append(xc_note)
     if cvc5_stats["sat"]:
         engine_faults.append("cvc5 found a model for %d queries z3 answered unsat" % cvc5_stats["sat"])
     # ---- known findings ------------------------------------------------------------------------------------
@@ -258,6 +270,8 @@ def run_property(pid, tier):
             "t0_axiom_audit": {"kind": "bounded test of the library model against CPython (not a proof step)", "ok": aud.get("ok"),
                                "instances": aud.get("instances"), "schemas": len(aud.get("schemas", []))},
             "cvc5_crosscheck": cvc5_stats if tier == "thorough" else "thorough tier only",
+            "engine_crosscheck": {"kind": "bounded test of the verifier: executor on concrete inputs vs CPython on the real modules", "programs": xc["programs"],
+                                  "values_compared": xc["values_compared"], "mismatches": len(xc["mismatches"]), "note": xc_note},
         },
         "assumptions": COMMON_ASSUMPTIONS + cfg.assumptions + t2_used + sorted({n for q in fns for n in results[q]["notes"] if not n.startswith("dropped")}),
         "wall_s": round(time.time() - t0, 2),
